@@ -413,6 +413,9 @@ func (s *c13Sys) sweep(where string, full bool) error {
 			local["voters_checked"]++
 		}
 	}
+	if s.ref.rewards[latest] > 0 {
+		local["sweeps_with_rewards_level_gt0"]++
+	}
 	s.statsMu.Lock()
 	n := 0
 	for k, v := range local {
@@ -590,14 +593,17 @@ func c13Configs() []c13Config {
 			{name: "bl2/warm/rewards", balLook: 2, acctLB: 0, mem: true, warm: true, rewards: true, actions: tiny, h: 2, r: 4},
 		}
 	}
+	// ordered so that a capped run (busy machine) has covered every kind of configuration
+	// before it spends the rest of the budget on the largest state spaces
 	return []c13Config{
-		{name: "bl2/warm", balLook: 2, acctLB: 0, mem: true, warm: true, actions: all, h: 3, r: 5},
+		{name: "bl2/warm", balLook: 2, acctLB: 0, mem: true, warm: true, actions: core, h: 3, r: 5},
 		{name: "bl2-sp/warm", balLook: 2, sp: true, acctLB: 0, mem: true, warm: true, actions: small, h: 3, r: 6},
-		{name: "bl2/cold", balLook: 2, acctLB: 0, mem: true, warm: false, actions: all, h: 3, r: 5},
-		{name: "bl2-sp/warm/rewards", balLook: 2, sp: true, acctLB: 0, mem: true, warm: true, rewards: true, actions: small, h: 3, r: 6},
 		{name: "bl4-sp/warm", balLook: 4, sp: true, acctLB: 0, mem: true, warm: true, actions: tiny, h: 3, r: 8},
+		{name: "bl2-sp/warm/rewards", balLook: 2, sp: true, acctLB: 0, mem: true, warm: true, rewards: true, actions: tiny, h: 3, r: 6},
 		{name: "bl4/cold/lb2", balLook: 4, acctLB: 2, mem: true, warm: false, actions: small, h: 3, r: 8},
 		{name: "bl2/warm/file+lru", balLook: 2, acctLB: 0, mem: false, lru: true, warm: true, actions: tiny, h: 2, r: 4},
+		{name: "bl2/warm/close", balLook: 2, acctLB: 0, mem: true, warm: true, actions: []int{c13Empty, c13OnShort, c13CloseA, c13PayA}, h: 4, r: 5},
+		{name: "bl2/cold", balLook: 2, acctLB: 0, mem: true, warm: false, actions: all, h: 3, r: 5},
 	}
 }
 
